@@ -49,7 +49,8 @@ Definition bind {A B} (m : M A) (k : A -> M B) : M B := fun c r =>
   | (t, OutOfFuel) => (t, OutOfFuel)
   end.
 Definition emit (s : str) : M unit := fun _ _ => ([s], Ok tt).
-Definition ask : M cfg := fun c _ => ([], Ok c).
+Definition ask_bfs : M bool := fun c _ => ([], Ok (c_bfs c)).
+Definition ask_ts_tail : M bool := fun c _ => ([], Ok (c_ts_tail c)).
 Definition call (t : task) (d : N) : M answer := fun _ r => r t d.
 Definition enter (d : N) : M N := fun c _ =>
   if c_limit c <? d + 1 then ([], Err EStackOverflow) else ([], Ok (d + 1)).
@@ -365,8 +366,8 @@ Fixpoint comp_dfs (en : env) (specs : list cspec) (v : vars) (d : N) : M (list v
   end.
 
 Definition comp_envs (en : env) (specs : list cspec) (d : N) : M (list env) :=
-  let* c := ask in
-  let* vs := (if c_bfs c then comp_bfs en specs [[]] d else comp_dfs en specs [] d) in
+  let* bfs := ask_bfs in
+  let* vs := (if bfs then comp_bfs en specs [[]] d else comp_dfs en specs [] d) in
   ret (map (fun v => FVars v [] :: en) vs).
 
 Fixpoint build_comp_fields (envs : list env) (name : cexpr) (plus : bool) (body : cexpr)
@@ -955,9 +956,9 @@ Definition do_eval (en : env) (x : cexpr) (d : N) : M value :=
   | CCall f pos named ts tail =>
       let* fv := eval en f d in
       if is_fun fv then
-        let* c := ask in
+        let* only_tail := ask_ts_tail in
         apply fv (map (fun e => Th e en) pos) (map (fun p => (fst p, Th (snd p) en)) named)
-              (ts && (tail || negb (c_ts_tail c))) d
+              (ts && (tail || negb only_tail)) d
       else kind "CalleeIsNotFunction"
   | CLocal binds body => eval (FVars [] binds :: en) body d
   | CIte c t e =>
